@@ -1401,7 +1401,9 @@ func (c *Conn) executeQuery(ctx context.Context, qry *Query) *Iter {
 			}
 		}
 
-		params.skipMeta = !(c.session.cfg.DisableSkipMetadata || qry.disableSkipMetadata)
+		// protocol 1 has no skip_metadata flag and its PREPARED result carries no
+		// result metadata, so the metadata of the rows result must be used
+		params.skipMeta = c.version > protoVersion1 && !(c.session.cfg.DisableSkipMetadata || qry.disableSkipMetadata)
 
 		frame = &writeExecuteFrame{
 			preparedID:    info.id,
